@@ -17,6 +17,64 @@ thread_local! {
     static INPUT_MODIFIED: Cell<bool> = const { Cell::new(false) };
 }
 
+thread_local! {
+    /// scheduling points at allocator calls are enabled for this thread (inside a library call of a
+    /// run that drew the "alloc-yield" knob)
+    static ALLOC_YIELD: Cell<bool> = const { Cell::new(false) };
+    /// the thread is inside harness code (scheduler, emit seam): allocator calls there are not points
+    static IN_HARNESS: Cell<bool> = const { Cell::new(false) };
+}
+
+pub fn set_alloc_yield(v: bool) {
+    ALLOC_YIELD.with(|f| f.set(v));
+}
+
+/// Run harness code with allocator scheduling points switched off; returns the previous state.
+pub fn enter_harness() -> bool {
+    IN_HARNESS.with(|f| f.replace(true))
+}
+pub fn leave_harness(prev: bool) {
+    IN_HARNESS.with(|f| f.set(prev));
+}
+
+/// The allocator seam: every heap operation made by the code under test is a place where the OS
+/// could preempt the thread, so it is a scheduling point too (much finer than one rule node).
+pub struct SimAlloc;
+
+#[inline]
+fn alloc_point() {
+    // const-initialised thread-locals without destructors: safe to touch from inside the allocator
+    let on = ALLOC_YIELD.try_with(|f| f.get()).unwrap_or(false);
+    if !on {
+        return;
+    }
+    let busy = IN_HARNESS.try_with(|f| f.replace(true)).unwrap_or(true);
+    if busy {
+        return;
+    }
+    yield_hook("alloc");
+    let _ = IN_HARNESS.try_with(|f| f.set(false));
+}
+
+unsafe impl std::alloc::GlobalAlloc for SimAlloc {
+    unsafe fn alloc(&self, layout: std::alloc::Layout) -> *mut u8 {
+        alloc_point();
+        std::alloc::System.alloc(layout)
+    }
+    unsafe fn dealloc(&self, ptr: *mut u8, layout: std::alloc::Layout) {
+        std::alloc::System.dealloc(ptr, layout);
+        alloc_point();
+    }
+    unsafe fn realloc(&self, ptr: *mut u8, layout: std::alloc::Layout, new_size: usize) -> *mut u8 {
+        alloc_point();
+        std::alloc::System.realloc(ptr, layout, new_size)
+    }
+    unsafe fn alloc_zeroed(&self, layout: std::alloc::Layout) -> *mut u8 {
+        alloc_point();
+        std::alloc::System.alloc_zeroed(layout)
+    }
+}
+
 pub fn set_input_modified() {
     INPUT_MODIFIED.with(|f| f.set(true));
 }
@@ -40,22 +98,32 @@ pub fn diag(msg: &str) {
 
 fn yield_hook(site: &'static str) {
     // Clone the Arc out so that no RefCell borrow is held while the thread is parked.
+    let prev = if site == "alloc" { true } else { enter_harness() };
     let ctx = CTX.with(|c| c.borrow().clone());
     if let Some(ctx) = ctx {
         ctx.yield_point(site);
     }
+    if site != "alloc" {
+        leave_harness(prev);
+    }
 }
 
 fn emit_hook(text: &str) {
+    let prev = enter_harness();
     let ctx = CTX.with(|c| c.borrow().clone());
+    // (an injected sink failure unwinds out of here: the flag is restored by the operation wrapper)
     match ctx {
-        Some(ctx) => ctx.emit(text),
+        Some(ctx) => {
+            ctx.emit(text);
+            leave_harness(prev);
+        }
         None => {
             // No context: behave like the shipped code (write to the process's stdout).
             use std::io::Write;
             let out = std::io::stdout();
             let mut l = out.lock();
             let _ = l.write_all(text.as_bytes());
+            leave_harness(prev);
         }
     }
 }
